@@ -29,3 +29,4 @@ _reg("C24")
 _reg("C26")
 _reg("C20")
 _reg("C21")
+_reg("C23")
